@@ -31,6 +31,10 @@ def planted(seed, n):
         if any(st[0] in ("summarize", "alias", "select", "drop", "rename") for st in steps):
             # keep the source columns a/b/s/p referenceable by name
             continue
+        if any(st[0] == "mutate" and any(n_ in ("id", "a", "b", "g", "s", "p", "f") for n_, _ in st[1]) for st in steps):
+            # ... and of their source types (a history that overwrites `b` with a Bool would add a second,
+            # type-level defect to the planted one: false alarm of check run 1, seed 1)
+            continue
         grouped = False
         for st in steps:
             grouped = st[0] == "group_by" or (grouped and st[0] != "ungroup")
